@@ -13,6 +13,8 @@ func init() {
 	intrinsics["errors.Is"] = func(fr *frame, a []value) value { return fr.errorsIs(a[0], a[1], 0) }
 	intrinsics["errors.As"] = errorsAs
 	intrinsics["(*strings.Builder).copyCheck"] = nop
+	intrinsics["(*strings.Builder).Grow"] = nop // capacity hint only (its body calls a runtime-internal allocator)
+	intrinsics["(*strings.Builder).grow"] = nop
 	intrinsics["(*strings.Builder).String"] = func(fr *frame, a []value) value {
 		p := a[0].(*value)
 		if p == nil {
